@@ -396,6 +396,17 @@ def _mem_budget_kb(n):
     return 48 * 1024 + n
 
 
+def _wait_real(loop, done, budget):
+    """let the (virtual-time) loop run for a bounded amount of REAL time until `done()`"""
+    end = time.time() + budget
+    while not done() and time.time() < end:
+        time.sleep(0.005)
+        try:
+            loop.drain(1)
+        except vloop.Deadlock:
+            pass
+
+
 def deliver(base, mutant, use_guard=True):
     """-> dict(outcome, cpu, rss_kb, followup, bucket)"""
     path, pk, what = base
@@ -458,7 +469,7 @@ def deliver(base, mutant, use_guard=True):
         old = vworld._LOOP
         try:
             asyncio.set_event_loop(loop)
-            register_trap_callback(cb, listen_address="192.0.2.200", port=1162, credentials=vworld.V2C("public"), loop=loop)
+            register_trap_callback(cb, listen_address="127.0.0.1", port=0, credentials=vworld.V2C("public"), loop=loop)
             proto = loop.transports[0].protocol
             try:
                 proto.datagram_received(mutant, ("192.0.2.9", 5000))
@@ -476,6 +487,7 @@ def deliver(base, mutant, use_guard=True):
             try:
                 proto.datagram_received(trap_bytes(), ("192.0.2.9", 5000))
                 loop.drain(3)
+                _wait_real(loop, lambda: len(got) > n0, 0.3)     # (a listener may decode in a worker task or thread)
                 info["followup"] = "ok" if len(got) == n0 + 1 else "valid trap after the datagram was not delivered"
             except Exception as e:  # noqa
                 info["followup"] = "valid trap after the datagram raised %s: %s" % (type(e).__name__, e)
@@ -1071,7 +1083,7 @@ def history_unit(check, stats, *, label, known_ids=(), n=150, size=20000):
         old = vworld._LOOP
         try:
             asyncio.set_event_loop(loop)
-            register_trap_callback(cb, listen_address="192.0.2.200", port=1162, credentials=vworld.V2C("public"), loop=loop)
+            register_trap_callback(cb, listen_address="127.0.0.1", port=0, credentials=vworld.V2C("public"), loop=loop)
             proto = loop.transports[0].protocol
             st8 = dict(n=0)
             good = trap_bytes()
@@ -1107,6 +1119,7 @@ def history_unit(check, stats, *, label, known_ids=(), n=150, size=20000):
             try:
                 proto.datagram_received(good, ("192.0.2.9", 5000))
                 loop.drain(3)
+                _wait_real(loop, lambda: len(got) > n0, 0.5)
             except Exception:  # noqa
                 pass
             delivered_after = len(got) == n0 + 1
